@@ -31,6 +31,7 @@ package hotline
 //@   ensures err == nil ==> f.Type[0] == old(p[0]) && f.Type[1] == old(p[1]) && f.FieldSize[0] == old(p[2]) && f.FieldSize[1] == old(p[3])
 //@   ensures err == nil ==> len(f.Data) == n-4 && forall(i, 0, n-4, f.Data[i] == old(p[4+i])) && fresh(f.Data)
 //@   ensures err == nil ==> inv_Field(f)
+//@   modifies f.Type, f.FieldSize, f.Data
 //@   nopanic
 
 //@ func FieldScanner(data []byte, atEOF bool) (advance int, token []byte, err error)
@@ -396,11 +397,14 @@ package hotline
 // renamed when the final name exists; the final name appears only after a complete receive.
 
 //@ func UploadHandler(rwc io.ReadWriter, fullPath string, fileTransfer *FileTransfer, fileStore FileStore, rLogger *slog.Logger, preserveForks bool) (err error)
-//@   before call os.OpenFile assert bitof(arg1, 10) == 1 && bitof(arg1, 9) == 0
+//@   before any call os.OpenFile assert bitof(arg1, 10) == 1 && bitof(arg1, 9) == 0
 //@   before any call (hotline.FileStore).OpenFile assert bitof(arg2, 10) == 1 && bitof(arg2, 9) == 0
-//@   before call os.OpenFile assert callres("os.Stat", 1) != nil
-//@   before call (hotline.FileStore).Rename assert callres("hotline.receiveFile") == nil && callres("os.Stat", 1) != nil
+//@   before any call os.OpenFile assert callres("os.Stat", 1) != nil
+//@   before any call (hotline.FileStore).OpenFile assert callres("os.Stat", 1) != nil
+//@   before any call (hotline.FileStore).Rename assert callres("hotline.receiveFile") == nil && callres("os.Stat", 1) != nil
 //@   before any call os.Rename assert callres("hotline.receiveFile") == nil && callres("os.Stat", 1) != nil
+//@   some call os.OpenFile | (hotline.FileStore).OpenFile
+//@   some call os.Rename | (hotline.FileStore).Rename
 //@   before call (io.ReadWriter).Read assert false
 
 // ---------------------------------------------------------------------------------
@@ -740,8 +744,9 @@ package hotline
 
 //@ func UploadFolderHandler(rwc io.ReadWriter, fullPath string, fileTransfer *FileTransfer, fileStore FileStore, rLogger *slog.Logger, preserveForks bool) (err error)
 //@   property C10
-//@   before call os.OpenFile assert bitof(arg1, 10) == 1 && bitof(arg1, 9) == 0
+//@   before any call os.OpenFile assert bitof(arg1, 10) == 1 && bitof(arg1, 9) == 0
 //@   before any call (hotline.FileStore).OpenFile assert bitof(arg2, 10) == 1 && bitof(arg2, 9) == 0
+//@   some call os.OpenFile | (hotline.FileStore).OpenFile
 //@   before call os.Rename#1 assert callres("hotline.receiveFile#1") == nil
 //@   before call os.Rename#2 assert callres("hotline.receiveFile#2") == nil
 //@   before call os.Mkdir assert callres("os.Stat#1", 1) != nil
@@ -818,3 +823,44 @@ package hotline
 //@ func (f *fileWrapper) TotalSize() (r []byte)
 //@   property C11
 //@   before call PutUint32 assert callres("Stat#1", 1) == nil && callres("Stat#2", 1) != nil ==> arg2 == (callres("Size#1") - f.dataOffset) % 4294967296
+
+// ---------------------------------------------------------------------------------
+// C01 / C14: a transaction is serialised without being consumed.  Read advances the transaction's
+// own cursor only -- the fields (and their cursors) are left alone, so the same transaction can be
+// read again, sent to several clients, and measured (Size) at any time; the fixed 22-byte header
+// carries the flags, type, ID, error code, the size twice and the field count.
+
+//@ func (t *Transaction) Size() (r []byte)
+//@   requires t != nil
+//@   ensures len(r) == 4 && fresh(r)
+//@   modifies nothing
+//@   loop 1 modifies nothing
+
+//@ func (t *Transaction) Read(p []byte) (n int, err error)
+//@   requires t != nil && t.readOffset >= 0 && len(t.Fields) <= 65535
+//@   requires forall(k, 0, len(t.Fields), t.Fields[k].readOffset >= 0 && len(t.Fields[k].Data) <= 65535 && u16(bytes(t.Fields[k].FieldSize)) == len(t.Fields[k].Data))
+//@   ensures err == nil ==> t.readOffset == old(t.readOffset) + n && n <= len(p)
+//@   ensures err != nil ==> n == 0 && t.readOffset == old(t.readOffset)
+//@   let hdr := err == nil && old(t.readOffset) == 0 && len(p) >= 22
+//@   ensures hdr ==> n >= 22
+//@   ensures hdr ==> p[0] == t.Flags && p[1] == t.IsReply
+//@   ensures hdr ==> bytes(p)[2:4] == bytes(t.Type) && bytes(p)[4:8] == bytes(t.ID) && bytes(p)[8:12] == bytes(t.ErrorCode)
+//@   ensures hdr ==> bytes(p)[12:16] == bytes(p)[16:20] && u16(bytes(p), 20) == len(t.Fields)
+//@   modifies t.readOffset, p
+//@   loop 1 invariant bbuf.off >= 0 && len(bbuf.buf) >= bbuf.off
+//@   loop 1 modifies *bbuf
+
+// Decoding a transaction: the header fields are the corresponding sub-ranges of the input, the
+// whole input is consumed, and nothing but the transaction is written.  The input is a complete
+// record (transactionScanner delivers exactly 20 + total size bytes).
+
+//@ func (t *Transaction) Write(p []byte) (n int, err error)
+//@   requires t != nil && isnil(t.Fields)
+//@   requires len(p) >= 22 ==> len(p) == 20 + u32(bytes(p), 12) && u32(bytes(p), 12) <= 4294967275
+//@   ensures len(p) < 22 ==> err != nil
+//@   ensures err == nil ==> n == len(p) && t.Flags == old(p[0]) && t.IsReply == old(p[1])
+//@   ensures err == nil ==> bytes(t.Type) == old(bytes(p)[2:4]) && bytes(t.ID) == old(bytes(p)[4:8]) && bytes(t.ErrorCode) == old(bytes(p)[8:12])
+//@   ensures err == nil ==> bytes(t.TotalSize) == old(bytes(p)[12:16]) && bytes(t.DataSize) == old(bytes(p)[16:20]) && bytes(t.ParamCount) == old(bytes(p)[20:22])
+//@   modifies t.Flags, t.IsReply, t.Type, t.ID, t.ErrorCode, t.TotalSize, t.DataSize, t.ParamCount, t.Fields
+//@   loop 1 modifies t.Fields
+//@   nopanic
